@@ -9,6 +9,7 @@ import (
 
 	"github.com/lmorg/murex/debug"
 	"github.com/lmorg/murex/lang/state"
+	"github.com/lmorg/murex/utils/verifhook"
 )
 
 // FID (Function ID) table: ie table of murex `Process` processes
@@ -34,6 +35,7 @@ func (f *funcID) Register(p *Process) (fid uint32) {
 	f.list[fid] = p
 	p.Id = fid
 	p.Variables.process = p
+	verifhook.Emit(f, "fid.reg", "", int64(fid), verifParentId(p))
 
 	f.mutex.Unlock()
 
@@ -48,7 +50,16 @@ func (f *funcID) Deregister(fid uint32) {
 
 	f.mutex.Lock()
 	delete(f.list, fid)
+	verifhook.Emit(f, "fid.dereg", "", int64(fid))
 	f.mutex.Unlock()
+}
+
+// verifParentId is only used by the verif instrumentation above
+func verifParentId(p *Process) int64 {
+	if !verifhook.Enabled || p.Parent == nil {
+		return 0
+	}
+	return int64(p.Parent.Id)
 }
 
 // Proc gets process by FID
